@@ -233,9 +233,9 @@ fn exhaustive_tamper(nhist: usize, part: usize, parts: usize) -> impl Iterator<I
 
 pub fn check(rep: &Report) {
     rep.assume("the peer is a conforming MS-NLMP implementation with extended session security, key exchange and 128-bit keys (the only mode the client negotiates)");
-    let nh = rep.tier.n(8, 200) as usize;
+    let nh = rep.tier.n(24, 400) as usize;
     rep.enumerate("bitflips-exhaustive", true, move |p, n| exhaustive_tamper(nh, p, n), run);
-    rep.random("histories", rep.tier.n(60_000, 3_000_000), 96, decode, run);
+    rep.random("histories", rep.tier.n(400_000, 8_000_000), 96, decode, run);
     rep.require("histories", "multi-wrap", 1000);
     rep.require("histories", "multi-unwrap", 1000);
     rep.require("histories", "tamper", 1000);
